@@ -8,10 +8,10 @@
 EXTENDS SelLaws, Json
 
 CONSTANTS Mode,      \* "ref" | "c23" | "c24"
-          Tier,      \* "quick" | "thorough"
+          Tier,      \* "quick" (C23) | "small" (C24 quick) | "thorough"
           RefN       \* size of the universe prefix the monitor is run on in mode "ref"
 
-Singles == {<<"a">>, <<"*">>, <<".c">>, <<".d">>, <<"#i">>, <<"[x]">>, <<"[x=y]">>, <<":hover">>, <<"::before">>,
+Singles == {<<"a">>, <<"*">>, <<".c">>, <<".d">>, <<"#i">>, <<"#j">>, <<"[x]">>, <<"[x=y]">>, <<":hover">>, <<"::before">>,
             <<":is(", ".c", ")">>, <<":not(", ".c", ")">>}
 (* in the storage order of the pinned tree (element, id, classes, attributes, pseudos), so that the open
    finding compound_reordered of C19 does not show in these laws *)
@@ -20,7 +20,8 @@ Pairs   == {<<"a", ".c">>, <<"a", "#i">>, <<".c", ".d">>, <<".c", ":hover">>, <<
             <<".d", ":not(", ".c", ")">>, <<"a", "[x=y]">>}
 Compounds == Singles \cup Pairs
 
-Core == IF Tier = "quick" THEN {<<"a">>, <<"b">>, <<".c">>, <<"a", ".c">>, <<":not(", ".c", ")">>}
+Core == IF Tier = "small" THEN {<<"a">>, <<"b">>, <<".c">>}
+        ELSE IF Tier = "quick" THEN {<<"a">>, <<"b">>, <<".c">>, <<":not(", ".c", ")">>}
         ELSE {<<"a">>, <<"b">>, <<".c">>, <<"a", ".c">>, <<":not(", ".c", ")">>, <<"*">>, <<"#i">>, <<"::before">>}
 Combs == {"sp", ">", "+", "~"}
 
@@ -28,11 +29,12 @@ Extras == {<<"a", "sp", "b", "sp", ".c">>, <<"a", ">", "b", "sp", ".c">>, <<"a",
            <<"a", "+", "b", "~", ".c">>, <<"a", "~", "b", "+", ".c">>, <<"a", ">", "b", "+", ".c">>,
            <<"a", "+", "b", ">", ".c">>, <<"a", "~", "b", "sp", ".c">>, <<".c", "sp", "a", "::before">>,
            <<"a", ">", ".c", "::before">>, <<"*", "sp", ".c">>, <<"*", ">", "a">>}
-          \cup (IF Tier = "quick" THEN {} ELSE
+          \cup (IF Tier # "thorough" THEN {} ELSE
                {<<"a", ">", "b", ">", ".c">>, <<"a", "~", "b", "~", ".c">>, <<"a", "+", "b", "+", ".c">>, <<"a", "sp", "b", "~", ".c">>,
                 <<"a", "sp", "b", "sp", ".c", "sp", ".d">>, <<"a", ">", "b", "~", ".c", "+", ".d">>})
 
-ListMembers == IF Tier = "quick" THEN {<<"a">>, <<".c">>, <<"a", ".c">>, <<"a", ">", "b">>}
+ListMembers == IF Tier = "small" THEN {<<"a">>, <<".c">>, <<"a", ">", "b">>}
+               ELSE IF Tier = "quick" THEN {<<"a">>, <<".c">>, <<"a", ".c">>, <<"a", ">", "b">>}
                ELSE {<<"a">>, <<".c">>, <<"a", ".c">>, <<"a", ">", "b">>, <<"a", "sp", "b">>, <<":not(", ".c", ")">>}
 
 Complexes == Compounds \cup {x \o <<c>> \o y : x \in Core, c \in Combs, y \in Core} \cup Extras
@@ -56,16 +58,17 @@ DeriveToks(i) == {ToksComplex(d) : d \in DeriveOf(i)}
 ---------------------------------------------------------------------------
 (* vacuity guard: the laws are jointly satisfiable on this universe.  RefTable has a parameter *)
 (* because TLC evaluates every constant definition at start-up; it is only needed in mode "ref". *)
-RefTable(z) == Sq([i \in 1..N |-> Sq([j \in 1..N |-> IF RefSuper(P[i], P[j]) THEN 1 ELSE 0])])
+RefTable(m) == Sq([i \in 1..m |-> Sq([j \in 1..m |-> IF RefSuper(P[i], P[j]) THEN 1 ELSE 0])])
 
 RefLaws(T) ==
   /\ N > 0
   /\ Reflexive(T)
   /\ Transitive(T)
-  /\ \A i \in 1..N : \A j \in 1..N : MustTrue(P[i], P[j]) => T[i][j] = 1
+  /\ \A i \in 1..Len(T) : \A j \in 1..Len(T) : MustTrue(P[i], P[j]) => T[i][j] = 1
+  (* every Derive query the generator emits is one the monitor forces to be true, and the reference agrees *)
   /\ \A i \in 1..N : \A d \in DeriveOf(i) : MustTrue(P[i], <<d>>) /\ RefSuper(P[i], <<d>>)
   (* the relation is not trivial: it separates selectors *)
-  /\ \E i \in 1..N : \E j \in 1..N : T[i][j] = 0
+  /\ \E i \in 1..Len(T) : \E j \in 1..Len(T) : T[i][j] = 0
 
 ---------------------------------------------------------------------------
 (* queries *)
@@ -78,10 +81,13 @@ Forms == {<<"str", "list">>, <<"list", "str">>, <<"list", "list">>}
 Q23(z) == SelQ(z)
   \cup {Q("super", i, j, USeq[i], USeq[j], E, E, "str", "str") : i \in 1..N, j \in 1..N}
   \cup {Q("super", i, i, USeq[i], USeq[i], E, E, f[1], f[2]) : i \in 1..N, f \in Forms}
-  \cup UNION {{Q("super", i, Idx(d), USeq[i], d, E, E, f[1], f[2]) : f \in {<<"str", "str">>, <<"list", "list">>}, d \in DeriveToks(i)} : i \in 1..N}
+  \cup UNION {{Q("super", i, Idx(d), USeq[i], d, E, E, "str", "str") : d \in DeriveToks(i)} : i \in 1..N}
+  \cup UNION {{Q("super", i, Idx(d), USeq[i], d, E, E, "list", "list") : d \in DeriveToks(i)} : i \in {i \in 1..N : Tier = "thorough" \/ USeq[i] \in Compounds \cup Extras}}
 
-XPool == {<<"a">>, <<".c">>, <<".d">>, <<"#i">>, <<"[x]">>, <<":hover">>, <<".e">>, <<"a", ".c">>, <<".c", ",", ".d">>, <<"::before">>}
-YPool == {<<".e">>, <<"b">>, <<"e", "sp", "f">>, <<"e", ">", ".f">>, <<".c">>, <<".e", ",", "f">>}
+XPool == IF Tier = "small" THEN {<<"a">>, <<".c">>, <<"#i">>, <<":hover">>, <<".e">>, <<"a", ".c">>, <<".c", ",", ".d">>}
+         ELSE {<<"a">>, <<".c">>, <<".d">>, <<"#i">>, <<"[x]">>, <<":hover">>, <<".e">>, <<"a", ".c">>, <<".c", ",", ".d">>, <<"::before">>}
+YPool == IF Tier = "small" THEN {<<".e">>, <<"e", ">", ".f">>, <<".e", ",", "f">>}
+         ELSE {<<".e">>, <<"b">>, <<"e", "sp", "f">>, <<"e", ">", ".f">>, <<".c">>, <<".e", ",", "f">>}
 AmpForms == {<<"&", ".c">>, <<"&", ">", "b">>, <<".c", "sp", "&">>, <<"&", ":hover">>, <<":not(", "&", ")">>, <<"&", "sp", "b", ",", ".e">>}
 NestPool == Compounds \cup Extras \cup Lists \cup AmpForms
 Suffixes == {<<".c">>, <<".d">>, <<"#i">>, <<"[x]">>, <<":hover">>, <<"::before">>, <<":not(", ".c", ")">>, <<":is(", ".c", ")">>,
@@ -105,7 +111,7 @@ M == IF RefN < N THEN RefN ELSE N
 
 Init == /\ q \in Queries(0)
         /\ R = IF Mode = "ref" THEN EmptyR(M) ELSE <<>>
-        /\ T = IF Mode = "ref" THEN RefTable(0) ELSE <<>>
+        /\ T = IF Mode = "ref" THEN RefTable(M) ELSE <<>>
         /\ l = 1 /\ rej = FALSE
 
 (* mode "ref": the SuperMonitor consumes the reference answers for the pairs of the first M universe elements, row by row *)
